@@ -13,8 +13,20 @@ func H_C19_custom_key_flags() {
 	if cap(kf0.Name) >= 2 {
 		_ = append(kf0.Name[:0], "edited", "edited")
 	}
+	// a decomposition handed out earlier keeps describing the word it was made from when the receiver is used again
+	pv := kf.Value
+	first := kf.Name
 	kf.FromBytes(v)
 	vCheck(kf.Value == v, "keyflags/value-kept")
+	for i := range first {
+		want := "None"
+		if pv&1 != 0 && i == 0 {
+			want = "Attestation"
+		} else if pv&2 != 0 {
+			want = "MFA not used"
+		}
+		vCheck(first[i] == want, "keyflags/earlier-decomposition-unchanged-by-reuse-of-the-receiver")
+	}
 	var want []string
 	if v&0x01 != 0 {
 		want = append(want, "Attestation")
